@@ -32,6 +32,7 @@ impl UnixStream {
     }
 
     fn do_connect(path: &UnixStr, timeout: Option<Duration>) -> Result<Self> {
+        let addr = SocketAddressUnix::try_from_unix(path)?;
         let fd = rusl::network::socket(
             AddressFamily::AF_UNIX,
             SocketOptions::new(
@@ -40,7 +41,6 @@ impl UnixStream {
             ),
             0,
         )?;
-        let addr = SocketAddressUnix::try_from_unix(path)?;
         if let Err(e) = sock_nonblock_op_poll_if_not_ready(
             fd,
             Errno::EAGAIN,
@@ -59,6 +59,7 @@ impl UnixStream {
     /// # Errors
     /// Various OS errors relating to permissions, and missing paths
     pub fn try_connect(path: &UnixStr) -> Result<Option<Self>> {
+        let addr = SocketAddressUnix::try_from_unix(path)?;
         let fd = rusl::network::socket(
             AddressFamily::AF_UNIX,
             SocketOptions::new(
@@ -67,7 +68,6 @@ impl UnixStream {
             ),
             0,
         )?;
-        let addr = SocketAddressUnix::try_from_unix(path)?;
         match rusl::network::connect_unix(fd, &addr) {
             Ok(()) => {}
             Err(e) if e.code == Some(Errno::EAGAIN) => {
@@ -116,6 +116,7 @@ impl UnixListener {
     /// # Errors
     /// Various OS errors relating to permissions, and missing paths
     pub fn bind(path: &UnixStr) -> Result<Self> {
+        let addr = SocketAddressUnix::try_from_unix(path)?;
         let fd = rusl::network::socket(
             AddressFamily::AF_UNIX,
             SocketOptions::new(
@@ -124,7 +125,6 @@ impl UnixListener {
             ),
             0,
         )?;
-        let addr = SocketAddressUnix::try_from_unix(path)?;
         if let Err(e) = rusl::network::bind_unix(fd, &addr) {
             let _ = rusl::unistd::close(fd);
             return Err(e.into());
